@@ -2,6 +2,7 @@
 import Driver.Loop
 import NumqiModel.Pauli
 import Driver.C08Batch
+import Driver.C08Wrap
 
 namespace Numqi.Driver.C08
 open Numqi Numqi.Pauli
@@ -27,6 +28,8 @@ def parseSyms? (s : String) : Option (List Nat) :=
 
 def handle (args : List String) : String :=
   match args with
+  | "pofindex" :: _ | "pofstr" :: _ | "pofF2" :: _ | "pstr" :: _ | "pgroup" :: _ | "ofindexns" :: _ | "toindexns" :: _
+  | "rpauli" :: _ => Numqi.Driver.C08Wrap.handle args   -- wrapper rows (model: NumqiModel/PauliWrap.lean)
   | ["mul", n, a, b] => Id.run do
       let some n := n.toNat? | return "bad-op"
       let some a := parseBits? a | return "bad-op"
